@@ -148,7 +148,7 @@ def main(tier, rep):
     acc, rej, st, _ = tlc.validate_traces("FallbackTrace", [{"h": t["h"], "ev": t["ev"]} for t in traces])
     rep.set("traces_validated_against_impl", len(traces))
     rep.set("trace_states", st)
-    for i, (pos, clauses) in sorted(rej.items()):
+    for i, pos, clauses in ((i, p, c) for i, lst in sorted(rej.items()) for p, c in lst[:1]):
         t = traces[i]
         ev = t["ev"][pos - 1] if pos <= len(t["ev"]) else {"e": "<end>"}
         kind = t["ev"][0]["kind"]
